@@ -40,6 +40,7 @@ func c01(c *core.Check) {
 	c01AtomicInlines(c)
 	c01NilImplementations(c)
 	c01NilResults(c)
+	c01ErrorNotPanic(c)
 	c01OrderedSlices(c)
 
 	p := c.Prog
